@@ -30,3 +30,13 @@ Proof.
   assert (E : (max_redirect c <=? nredir (inf n)) = true) by (apply N.leb_le; exact HL).
   rewrite E. reflexivity.
 Qed.
+
+(* ... and the target then stays in the tree: the pre-processor's "removing child with empty path" rule (a bare
+   domain is a false positive of the asset extractors) applies below a GotChildren parent only; below a redirect a
+   target that normalises and is in scope is kept whatever its path *)
+Theorem pre_loop_keeps_redirect_target : forall o n p r t u ep,
+  st_of n = Fresh -> st_of p = GotRedirected -> o_pre o (id_of n) = POk u false ep ->
+  pre_loop o ((n, Some p) :: r) t = pre_loop o r (set_url_of (id_of n) u t).
+Proof.
+  intros o n p r t u ep HF HP HO. simpl. rewrite HF, HO, HP. simpl. reflexivity.
+Qed.
